@@ -34,11 +34,14 @@ type C06Config struct {
 	// Extras: nodes, groupings and uses statements carry if-feature / when / status / reference /
 	// description and extension statements (Entry.Extra and Entry.Exts of the copies, defect D62).
 	Extras bool
+	// SubPrefixes: submodules whose belongs-to prefix differs from the prefix of the module they
+	// belong to, importing other modules under the module's own prefix or a sibling's belongs-to prefix.
+	SubPrefixes bool
 }
 
 // C06Default is the configuration the runner uses.
 func C06Default() C06Config {
-	return C06Config{MaxModules: 3, Submodules: true, Mutate: true, BadRate: 0.05, Extras: true}
+	return C06Config{MaxModules: 3, Submodules: true, Mutate: true, BadRate: 0.05, Extras: true, SubPrefixes: true}
 }
 
 // C06UseRef is one `uses` statement and the grouping it must bind to.
@@ -228,13 +231,30 @@ func (g *c06) resolve(at *Node, kw, ref string) (*Node, string) {
 			for _, o := range m.Imports {
 				if m.ImportPrefix[o] == pfx {
 					d, x := c06Top(o, kw, rest)
+					// the prefix is also what the module this submodule belongs to (or a sibling
+					// submodule) calls itself: it still denotes this file's import
+					clash := ""
+					if m.Sub && pfx == m.Owner.Prefix {
+						clash = " under the owner's own prefix"
+					} else if m.Sub {
+						for _, t := range g.set.Mods {
+							if t.Sub && t != m && t.Owner == m.Owner && t.Prefix == pfx {
+								clash = " under a sibling's belongs-to prefix"
+							}
+						}
+					}
+					if clash != "" {
+						if own, _ := c06Top(m, kw, rest); own != nil {
+							clash += ", same name in the own module"
+						}
+					}
 					switch {
 					case d == nil:
-						return nil, "none"
+						return nil, "none" + clash
 					case x == o:
-						return d, "import"
+						return d, "import" + clash
 					default:
-						return d, "import-include"
+						return d, "import-include" + clash
 					}
 				}
 			}
@@ -824,6 +844,11 @@ func C06Generate(r *rand.Rand, cfg C06Config) *C06Case {
 			for i := 0; i < ns; i++ {
 				s := &Module{Name: fmt.Sprintf("%s-s%d", m.Name, i+1), Prefix: m.Prefix, Namespace: m.Namespace, Sub: true, Owner: m,
 					ImportPrefix: map[*Module]string{}}
+				// prefixes are scoped per file: the belongs-to prefix of a submodule need not be the prefix
+				// the module declares for itself
+				if cfg.SubPrefixes && g.chance(0.45) {
+					s.Prefix = fmt.Sprintf("s%s%d", m.Name, i+1)
+				}
 				s.Body = &Node{Kw: "submodule", Arg: s.Name}
 				g.mod[s.Body] = s
 				for _, o := range m.Imports {
@@ -833,6 +858,36 @@ func C06Generate(r *rand.Rand, cfg C06Config) *C06Case {
 					}
 				}
 				mine = append(mine, s)
+			}
+			// ... so a submodule may import another module under the very prefix its module declares for
+			// itself, or under the belongs-to prefix of a sibling submodule: the prefix then denotes what
+			// this file's import table says (seeded change C06-d2 took it for a local prefix)
+			for _, s := range mine {
+				if !cfg.SubPrefixes || s.Prefix == m.Prefix {
+					continue
+				}
+				var others []*Module
+				for _, o := range set.Mods {
+					if o != m && !o.Sub {
+						others = append(others, o)
+					}
+				}
+				if len(others) == 0 || !g.chance(0.7) {
+					continue
+				}
+				pfx := m.Prefix
+				if g.chance(0.3) {
+					for _, t := range mine {
+						if t != s && t.Prefix != m.Prefix {
+							pfx = t.Prefix
+						}
+					}
+				}
+				o := others[r.Intn(len(others))]
+				if _, ok := s.ImportPrefix[o]; !ok {
+					s.Imports = append(s.Imports, o)
+				}
+				s.ImportPrefix[o] = pfx
 			}
 			// include structure: the module includes some; submodules include later ones (chains);
 			// every submodule is reachable from the module
@@ -948,6 +1003,32 @@ func C06Generate(r *rand.Rand, cfg C06Config) *C06Case {
 	g.ensureTwo()
 	if g.chance(0.04) {
 		g.traps()
+	}
+	// a submodule that imports under its module's own prefix (or a sibling's) uses the imported
+	// module's groupings through it
+	for _, sm := range set.Mods {
+		if !sm.Sub {
+			continue
+		}
+		for _, o := range sm.Imports {
+			pfx := sm.ImportPrefix[o]
+			clash := pfx == sm.Owner.Prefix
+			for _, t := range set.Mods {
+				if t.Sub && t != sm && t.Owner == sm.Owner && t.Prefix == pfx {
+					clash = true
+				}
+			}
+			if !clash || pfx == sm.Prefix {
+				continue
+			}
+			for _, k := range o.Body.Kids {
+				if k.Kw == "grouping" && g.done[k] && g.chance(0.6) {
+					if d, _ := c06Top(o, "grouping", k.Arg); d != nil {
+						g.useSite(sm.Body, pfx+":"+k.Arg, d)
+					}
+				}
+			}
+		}
 	}
 
 	c := &C06Case{Faulty: g.faulty}
